@@ -243,6 +243,7 @@ pub struct MarketOracles {
 pub struct MarketFeatures {
     pub quiet_ops: u64,
     pub direct_ops: u64,
+    pub direct_clock_moves: u64,
     pub ops_executed: u64,
     pub ops_skipped: u64,
     pub trades: u64,
@@ -554,12 +555,27 @@ fn run_inner(case: &MarketCase, orc: MarketOracles, prop: &str, feat: &mut Marke
             Op::ModifyRel { .. } => unreachable!("harness: ModifyRel made concrete above"),
             Op::Advance(dt) => {
                 now = now.saturating_add(*dt).min(u64::MAX - (1 << 20));
-                market.set_time(now);
-                if let Some(t) = twin.as_mut() {
-                    t.set_time(now)
-                }
-                for b in alone.iter_mut() {
-                    b.set_time(now)
+                if direct && !orc.standalone {
+                    // only this asset's own book is moved forward (through get_order_book_mut): the books of one
+                    // market then show different clocks until the next broadcast, which is later than all of them.
+                    // A reachable state for C07 (snapshots); not done in C14's cases, whose property is about books
+                    // that share one clock (a caller who moves one book's clock alone has given that up himself)
+                    feat.direct_clock_moves += 1;
+                    market.book_mut(a).set_time(now);
+                    if let Some(t) = twin.as_mut() {
+                        t.book_mut(a).set_time(now)
+                    }
+                    if orc.standalone {
+                        alone[a].set_time(now)
+                    }
+                } else {
+                    market.set_time(now);
+                    if let Some(t) = twin.as_mut() {
+                        t.set_time(now)
+                    }
+                    for b in alone.iter_mut() {
+                        b.set_time(now)
+                    }
                 }
             }
             Op::Trading(on) => {
